@@ -131,7 +131,10 @@ def observe(net):
             "inc": {int(i.incoming_id): {"lanelets": _ids(i.incoming_lanelets), "right": _ids(i.successors_right),
                                          "straight": _ids(i.successors_straight), "left": _ids(i.successors_left),
                                          "left_of": i.left_of} for i in x.incomings},
-            "crossings": _ids(x.crossings)}
+            "crossings": _ids(x.crossings),
+            # derived reference map (public accessor): lanelet id -> incoming element
+            "map_inc": {int(k): int(v.incoming_id) for k, v in x.map_incoming_lanelets.items()}}
+    o["map_inc_net"] = {int(k): int(v.intersection_id) for k, v in net.map_inc_lanelets_to_intersections.items()}
     return o
 
 
@@ -166,6 +169,12 @@ def check_no_dangling(o, tag, detail):
             bad("successors-straight", who, inc["straight"], lan)
             bad("successors-left", who, inc["left"], lan)
         bad("crossings", "intersection %d" % xid, x["crossings"], lan)
+        bad("incoming-map", "map_incoming_lanelets of intersection %d" % xid, sorted(x.get("map_inc", {})), lan)
+        union = sorted({v for inc in x["inc"].values() for v in inc["lanelets"] or ()})
+        if "map_inc" in x and sorted(x["map_inc"]) != union:
+            raise Violation("%s/incoming-map-differs" % tag, "intersection %d: map_incoming_lanelets has keys %r, the "
+                            "incoming elements list %r; %s" % (xid, sorted(x["map_inc"]), union, detail()))
+    bad("network-incoming-map", "map_inc_lanelets_to_intersections", sorted(o.get("map_inc_net", {})), lan)
 
 
 def _setdiff(tag, what, owner, exp, got, detail):
